@@ -59,6 +59,10 @@ def build_file(ctx, tpb, dmax, plan):
                 evs.append(Ev(T, ks(el[1])))
             elif el[0] == "TEXT":
                 mt.append(mido.MetaMessage("text", text="x", time=d))
+            elif el[0] == "NAME":
+                mt.append(mido.MetaMessage("track_name", name="x", time=d))
+            elif el[0] == "DANGLING_ON":
+                mt.append(mido.Message("note_on", channel=el[2], note=el[1], velocity=ctx.int(f"v{k}", 1, 127), time=d))
         mt.append(mido.MetaMessage("end_of_track", time=0))
         mf.tracks.append(mt)
         exp.append(evs)
@@ -78,8 +82,15 @@ def build_file(ctx, tpb, dmax, plan):
 
 ROUTING_PLAN = [
     [("TS", 3, 4), ("ON", 60, 0), ("OFF", 60, 0, False)],
-    [("ON", 61, 1), ("TEXT",), ("OFF", 61, 1, True), ("TS", 6, 8)],
+    [("NAME",), ("ON", 61, 1), ("TEXT",), ("OFF", 61, 1, True), ("TS", 6, 8)],
     [("ON", 60, 0), ("KS", KEYS[3]), ("OFF", 60, 0, True)],
+]
+# a track with an unmatched note-on: on its own it carries no complete note (normalise removes it, C07), so it must not
+# disturb the notes of the other tracks of its group
+DANGLING_PLAN = [
+    [("TS", 3, 4), ("ON", 60, 0), ("OFF", 60, 0, False)],
+    [("ON", 61, 1), ("OFF", 61, 1, True)],
+    [("NAME",), ("DANGLING_ON", 60, 0), ("KS", KEYS[3])],
 ]
 GROUPINGS = {
     "default": (None, None, 0),
@@ -94,11 +105,12 @@ GROUPINGS = {
 }
 
 
-def q_route(gname, dmax):
+def q_route(gname, dmax, plan=None, tag=""):
     groups, metas, target = GROUPINGS[gname]
+    plan = plan or ROUTING_PLAN
 
     def fn(ctx):
-        smf, exp = build_file(ctx, 24, dmax, ROUTING_PLAN)
+        smf, exp = build_file(ctx, 24, dmax, plan)
         g = groups if groups is not None else [[0], [1], [2]]
         m = metas if metas is not None else [0, 1, 2]
         considered = sorted({i for gr in g for i in gr} | set(m))
@@ -129,7 +141,7 @@ def q_route(gname, dmax):
                                                                               union_in_force(sig, KS, tau, (-1,)))]))
         ctx.must("integer_ticks", all(is_int(mm.time) for s in out for mm in raw_abs(s)))
         return [obs_abs(raw_abs(s)) for s in out]
-    return Query(f"route/{gname}/d{dmax}", fn,
+    return Query(f"route{tag}/{gname}/d{dmax}", fn,
                  ["one_sequence_per_group", "group_roll_is_union_of_its_tracks", "group_notes_wellformed",
                   "time_signature_in_force", "key_signature_in_force", "integer_ticks"],
                  desc=f"routing with track_indices={groups} meta={metas} target={target}")
@@ -170,6 +182,8 @@ def queries(tier, seed):
     qs = []
     for g in GROUPINGS:
         qs.append(q_route(g, 40 if tier == "thorough" else 24))
+    qs.append(q_route("merge02", 24, plan=DANGLING_PLAN, tag="_dangling"))
+    qs.append(q_route("default", 24, plan=DANGLING_PLAN, tag="_dangling"))
     for tpb in (3, 6, 12, 24, 48, 96, 192, 384):
         qs.append(q_rescale(tpb, 200 if tpb >= 24 else 60, RESCALE_PLAN, "one"))
     for tpb in (12, 96):
